@@ -179,6 +179,59 @@ example : convert ['1', '.', '5', 'h', '3', '0', 'm'] = .error .fraction := by d
 example : convert ['1', '.', '5', 'h', '0', 'm'] = .error .fraction := by decide +kernel
 example : convert ['P', '1', 'Y'] = .error .calendar := by decide +kernel
 
+/-- any character outside the alphabet of the two formats (digits, the six ASCII whitespace
+    characters, `.` `,`, `dhmsDHMS`, `P` `T` `Y`) anywhere in the string makes it invalid:
+    signs, exponents, underscores, other letters, lower-case `p`/`t`/`y`, non-ASCII digits and
+    spaces, ... -/
+theorem reject_stray_characters (cs : List Char) (c : Char) (hc : c ∈ cs) (hbad : allowedChar c = false) :
+    convert cs = .error .syntax := by
+  have h1 : matchTrad cs = none := by
+    cases h : matchTrad cs with
+    | none => rfl
+    | some g =>
+      have := matchTrad_allowed cs g h c hc
+      rw [hbad] at this
+      cases this
+  have h2 : matchIso cs = none := by
+    cases h : matchIso cs with
+    | none => rfl
+    | some g =>
+      have := matchIso_allowed cs g h c hc
+      rw [hbad] at this
+      cases this
+  unfold convert
+  rw [h1, h2]
+
+/-- the hypothesis is satisfiable for the usual suspects -/
+example : ['-', '+', 'e', 'E', '_', 'x', 'W', 'p', 't', 'y', ':', '/', '１', '\u00a0', '\u017f', '\u212a'].all
+    (fun c => !allowedChar c) = true := by decide
+
+/-- a unit that is repeated or comes after a smaller one (`1h2h`, `3m1h`, `5s1d`, ...) is refused, for
+    all numbers (fractions included) -/
+theorem reject_repeated_or_misordered_units (a b : NumText) (wa : a.WF) (wb : b.WF) (u v : Char)
+    (hu : isUnitLetter u = true) (hv : isUnitLetter v = true) (hr : unitRank v ≤ unitRank u) :
+    convert (a.text ++ u :: (b.text ++ [v])) = .error .syntax := by
+  have hiso := matchIso_digit a wa (u :: (b.text ++ [v]))
+  have htrad : matchTrad (a.text ++ u :: (b.text ++ [v])) = none := by
+    have sa := fun R => NumText.text_skipWs a wa R
+    have sb := fun R => NumText.text_skipWs b wb R
+    have nb := fun R => text_ne_nil b wb R
+    have ga := fun isU c R hc => optGroup_cons isU a wa c R hc
+    have gb := fun isU c R hc => optGroup_cons isU b wb c R hc
+    have la := fun isU c R hc => optGroupLast_cons isU a wa c R hc
+    have lb := fun isU c R hc => optGroupLast_cons isU b wb c R hc
+    simp only [isUnitLetter, Bool.or_eq_true, beq_iff_eq] at hu hv
+    rcases hu with ((rfl | rfl) | rfl) | rfl <;> rcases hv with ((rfl | rfl) | rfl) | rfl <;>
+      first
+      | (exfalso; revert hr; decide)
+      | (unfold matchTrad
+         simp [sa, sb, ga, gb, la, lb, nb, isUnitLetter, isD, isH, isM, isS, skipWs, isWs])
+  unfold convert
+  rw [htrad, hiso]
+
+example : convert ['3', 'm', '1', 'h'] = .error .syntax := by decide +kernel
+example : convert ['1', 'h', '2', 'h'] = .error .syntax := by decide +kernel
+
 /-- **timestr is the inverse of convert, integers**: for every natural number of seconds and every
     separator made of whitespace, `convert(timestr(n, sep)) = n` exactly. -/
 theorem timestr_inverse_int (n : Nat) (sep : List Char) (hs : allWs sep) (prec : Nat) :
@@ -211,6 +264,66 @@ theorem timestr_inverse_frac (q : Rat) (hq : 0 ≤ q) (prec : Nat) (sep : List C
 example : timestr (.float (599996 / 10000)) [] 3 = some ['1', 'm', '0', '.', '0', '0', '0', 's'] := by decide +kernel
 example : timestr (.float (863999995 / 10000)) [] 3 = some ['1', 'd', '0', 'h', '0', 'm', '0', '.', '0', '0', '0', 's'] := by decide +kernel
 example : timestr (.int 93784) [' '] 3 = some ['1', 'd', ' ', '2', 'h', ' ', '3', 'm', ' ', '4', 's'] := by decide +kernel
+
+/-- the documented rounding step of `timestr_approx` for a value of this magnitude
+    (0.001 s below 1 s, 0.01 s below 10 s, 0.1 s below 1 min, 1 s below 10 h, 1 min below 10 d, else 1 h) -/
+def approxStep (x : Rat) : Rat :=
+  if x < 1 then 1 / 1000 else if x < 10 then 1 / 100 else if x < 60 then 1 / 10
+  else if x < 36000 then 1 else if x < 864000 then 60 else 3600
+
+/- Full statement (not proved; checked by the oracle on the explored inputs only):
+     ∀ x ≥ 0 (int or float), ∀ whitespace sep,
+       convert (timestrApprox x sep) = approxValue x  ∧  |approxValue x - x| < approxStep x.
+   Proved below: the error bound (in fact half a step) for the value `timestr_approx` prints, for every
+   integer argument and for every float argument from 10 hours on, i.e. wherever the chain of decimal
+   roundings below one minute is not involved; including the corner where rounding to minutes reaches
+   exactly 10 days and the value is rounded again to hours. -/
+theorem timestr_approx_error_partial (x : Secs)
+    (hx : (∃ n : Nat, x = .int n) ∨ (∃ q : Rat, x = .float q ∧ 36000 ≤ q)) :
+    let v : Rat := match x with | .int n => (n : Rat) | .float q => q
+    approxValue x - v < approxStep v ∧ v - approxValue x < approxStep v := by
+  have key : ∀ a : AVal, 0 ≤ a.v →
+      (approxCoarse a).a.v - a.v < approxStep a.v ∧ a.v - (approxCoarse a).a.v < approxStep a.v := by
+    intro a ha
+    obtain ⟨h1, h2, h3⟩ := approxCoarse_bounds a ha
+    unfold approxStep
+    by_cases c1 : a.v < 36000
+    · rw [h1 c1]
+      have e : a.v - a.v = 0 := by grind
+      rw [e]
+      split <;> (try split) <;> (try split) <;> (try split) <;> grind
+    · by_cases c2 : a.v < 864000
+      · obtain ⟨b1, b2⟩ := h2 (by grind) c2
+        have n1 : ¬ a.v < 1 := by grind
+        have n2 : ¬ a.v < 10 := by grind
+        have n3 : ¬ a.v < 60 := by grind
+        simp only [n1, n2, n3, c1, c2, ↓reduceIte]
+        constructor <;> grind
+      · obtain ⟨b1, b2⟩ := h3 (by grind)
+        have n1 : ¬ a.v < 1 := by grind
+        have n2 : ¬ a.v < 10 := by grind
+        have n3 : ¬ a.v < 60 := by grind
+        simp only [n1, n2, n3, c1, c2, ↓reduceIte]
+        constructor <;> grind
+  rcases hx with ⟨n, rfl⟩ | ⟨q, rfl, hq⟩
+  · have hn0 : (0 : Rat) ≤ ((n : Int) : Rat) := by
+      have : (0 : Rat) ≤ (n : Rat) := by exact_mod_cast Nat.zero_le n
+      rw [Rat.intCast_natCast]; exact this
+    have := key ⟨((n : Int) : Rat), false, 0⟩ hn0
+    simpa [approxValue] using this
+  · have n1 : ¬ q < 1 := by grind
+    have n2 : ¬ (1 ≤ q ∧ q < 10) := by grind
+    have n3 : ¬ (10 ≤ q ∧ q < 60) := by grind
+    have c : ((10 * Gen.secPerHour : Nat) : Rat) = 36000 := by decide
+    have n4 : ¬ (60 ≤ q ∧ q < ((10 * Gen.secPerHour : Nat) : Rat)) := by rw [c]; grind
+    have hf : approxFloat q = ⟨q, true, 0⟩ := by
+      unfold approxFloat
+      simp only [n1, n2, n3, n4, ↓reduceIte]
+    have := key ⟨q, true, 0⟩ (by grind)
+    simpa [approxValue, hf] using this
+
+example : timestrApprox (.int 863990) [] = some ['1', '0', 'd', '0', 'h'] := by decide +kernel
+example : timestrApprox (.float (9996 / 1000)) [] = some ['1', '0', '.', '0', 's'] := by decide +kernel
 
 /-- negative numbers become 0, other numbers pass through (as floats) -/
 theorem negative_to_zero (q : Rat) (k : Kind) :
